@@ -38,8 +38,13 @@ CLAIMED = {
          "REGENERATED from the Python source on every run): the result never clashes case-insensitively with an existing name, any sequence of "
          "names yields pairwise distinct files ignoring case, no illegal character survives in the generated part, the clash fallback respects "
          "the 255 limit, the regenerated tables contain every character/name the target file systems forbid (tables_cover_spec, re-proved against "
-         "the current source), and the unconditional 255 bound is REFUTED by a machine-checked witness (known finding F1). Correspondence on "
-         "adversarial name sequences; designspace/plist/GLIF/UFO write-read equality and axis-map inverses are implementation sweeps (testing). "
+         "the current source), and the unconditional 255 bound is REFUTED by a machine-checked witness (known finding F1). Axis maps: "
+         "get_validated_map, map_forward (the literal piecewiseLinearMap dictionary scans) and map_backward (its sort and segment walk) are "
+         "modelled over exact rationals; for a map written in ANY entry order with pairwise different, strictly increasing entries "
+         "map_backward(map_forward v) == v and map_forward(map_backward d) == d for ALL v, d; for strictly decreasing maps both hold inside "
+         "the node range and a machine-checked counterexample shows the range cannot be dropped (slope +1 extrapolation); conflicting inputs "
+         "are refused. Correspondence on adversarial name sequences and on random maps (unsorted, flat, non-monotone, duplicate, "
+         "conflicting); designspace/plist/GLIF/UFO write-read equality are implementation sweeps (testing). "
          "F2 (misc/filenames raw-string table) repaired by a fix: commit.",
          "Rocq proof over a model with source-regenerated tables + correspondence + write/read sweeps"),
  "C13": ("Theorems over exact rationals for the Gallina transcription of cu2qu: convex-hull (disc) lemma for cubics/quadratics, soundness "
